@@ -298,7 +298,7 @@ static void runUnordered(Ctx& c, Rng& rng, const char* kindName, unsigned runs, 
 		if (kind == UMMAP && rng.chance(1, 2)) range = 3 + (int)rng.below(6);	// long value arrays: ranges inside a key group
 		if (mode == 3 && range < 12) range = 16;
 		KeyGen kg(rng, mode, range);
-		hc().fam = (unsigned)rng.below(6);	// hash family shared by all four containers of the run
+		hc().fam = (unsigned)rng.below(8);	// hash family shared by all four containers of the run
 		static const size_t targets[] = { 0, 10, 40, 150 };
 		size_t target = targets[rng.below(4)];
 		s.comment(fmt("run %u keys=%s range=%d hash=%s target=%zu", run, keyModeName(mode), range, hashFamName(hc().fam), target));
